@@ -30,6 +30,8 @@
                                              `next` panics on its j-th call
     scalar                                   → val=<v> | panic         (read-only, &self)
     try_into_scalar                          → ok(<v>) | err           (on a clone)
+    row_iter <r> | column_iter <c> | diagonal_iter via=iter|reference_iter
+                                             → vals=<list> | panic     (read-only)
     try <op …>                               the operation on a clone; the matrix itself is kept
 
   Answer: `<ok|panic> <R>x<C> <rows> rm=<row_major_iter> cm=<column_major_iter> ## len=<data.len()> kind=<panic kind>`
@@ -199,6 +201,16 @@ def answer (panicked : Bool) (rs : Rows Nat) (res : Matrix.Res Nat) : String :=
   if spec = model then s!"{spec} ## len={res.state.data.length}{kind}"
   else s!"{spec} ## MODEL-SPEC-DISAGREE {model}"
 
+/-- the answer of a read-only list getter: specification first, the model must agree -/
+def showListQuery (spec model : Outcome (List Nat)) : String :=
+  let sp := match spec with
+    | .ok l => s!"vals={showNats l}"
+    | .panic _ => "panic"
+  let md := match model with
+    | .ok l => s!"vals={showNats l}"
+    | .panic k => s!"panic ## kind={k}"
+  if (md.splitOn " ## ").head! = sp then md else s!"{sp} ## MODEL-SPEC-DISAGREE {md}"
+
 /-- Run a constructor through the code-shaped model (`Ctor.build`) and the specification
     (`Rows.ctorPre`, `Rows.ctorRows`; the rows are only materialised when the precondition holds). -/
 def construct (c : Matrix.Ctor Nat) : State × String :=
@@ -261,6 +273,20 @@ def step (s : State) (toks : List String) : State × String :=
         | .ok v => s!"val={v}"
         | .panic k => s!"panic ## kind={k}"
       (s, if (model.splitOn " ## ").head! = spec then model else s!"{spec} ## MODEL-SPEC-DISAGREE {model}")
+  | "row_iter" :: r :: _ =>
+    match s, r.toNat? with
+    | none, some _ => (s, "no-matrix")
+    | some st, some r => (s, showListQuery (Rows.rowAt st.rs r) (st.m.rowIter r))
+    | _, none => (s, "bad-op")
+  | "column_iter" :: c :: _ =>
+    match s, c.toNat? with
+    | none, some _ => (s, "no-matrix")
+    | some st, some c => (s, showListQuery (Rows.columnAt st.rs c) (st.m.columnIter c))
+    | _, none => (s, "bad-op")
+  | "diagonal_iter" :: _ =>
+    match s with
+    | none => (s, "no-matrix")
+    | some st => (s, showListQuery (.ok (Rows.diagonal st.rs)) st.m.diagonalIter)
   | ["try_into_scalar"] =>
     match s with
     | none => (s, "no-matrix")
